@@ -41,6 +41,15 @@ static void lwe_part(bool thorough) {
             LweSample *c = new_LweSample(P);
             for (int32_t M: Ms) {
                 double amax = 1.0 / (20.0 * M);
+                // prescribed errors over the whole decoding interval (-1/2M, 1/2M), both ends approached to a few units
+                { const double halfw = 4294967296.0 / (2.0 * M);
+                  for (int q = 0; q < 48; q++) { int32_t m = (int32_t) rng.below(M); Torus32 mu = modSwitchToTorus32(m, M);
+                      double f = q < 8 ? (q & 1 ? 1 : -1) * (1.0 - (3.0 + q) / halfw) : (rng.unit() * 2 - 1) * 0.999; if (halfw < 64) f *= 0.5;
+                      int32_t e = (int32_t) (f * (halfw - 2));
+                      VH_OP("lweSymDecrypt:prescribed-error:n=%d:M=%d", n, M);
+                      lweSymEncrypt(c, mu, 0., K); c->b += e;
+                      out.evaluations++;
+                      if (lweSymDecrypt(c, K, M) != mu) { out.viol("decrypt:lwe", J().i("n", n).i("Msize", M).i("message", m).s("noise", "prescribed inside the decoding interval").d("error_over_half_interval", e / halfw)); break; } } }
                 for (int ac = 0; ac < 5; ac++) {
                     double alpha = pick_alpha(ac, amax);
                     for (int32_t m: messages(M, thorough ? 40 : 10)) {
@@ -81,7 +90,7 @@ static void lwe_part(bool thorough) {
 static void tlwe_part(int k, bool thorough) {
     const int N = 1024;
     TLweParams *P = new_TLweParams(N, k, 1e-9, 0.25);
-    std::vector<int32_t> Ms = {2, 3, 4, 8, 16, 100, 1024, 1 << 16};
+    std::vector<int32_t> Ms = {2, 3, 4, 5, 6, 7, 8, 16, 100, 1000, 1024, 1 << 16};
     TorusPolynomial *msg = new_TorusPolynomial(N), *dec = new_TorusPolynomial(N);
     TLweSample *c = new_TLweSample(P);
     int nkeys = thorough ? 3 : 2;
@@ -91,6 +100,25 @@ static void tlwe_part(int k, bool thorough) {
         if (kk) out.cell("tlwe:key-object-regenerated-in-place");
         for (int32_t M: Ms) {
             double amax = 1.0 / (20.0 * M);
+            // the whole decoding interval of every message: a noiseless encryption whose body is then moved by a prescribed error, one
+            // per coefficient, spread over (-1/2M, 1/2M) with both ends approached to within a few units (the message must come back)
+            { std::vector<int32_t> mm(N); const double halfw = 4294967296.0 / (2.0 * M);
+              for (int j = 0; j < N; j++) { mm[j] = (int32_t) rng.below(M); msg->coefsT[j] = modSwitchToTorus32(mm[j], M); }
+              VH_OP("tLweSymDecrypt:prescribed-errors:k=%d:M=%d", k, M);
+              tLweSymEncrypt(c, msg, 0., K);
+              std::vector<int32_t> errs(N);
+              for (int j = 0; j < N; j++) { double f = j < 16 ? (j & 1 ? 1 : -1) * (1.0 - (4.0 + j) / halfw) : (j < 600 ? ((double) j / 300.0 - 1.0) * 0.995 : (rng.unit() * 2 - 1) * 0.995);
+                  if (halfw < 64) f *= 0.5; errs[j] = (int32_t) (f * (halfw - 3 * k - 2)); c->b->coefsT[j] += errs[j]; }
+              tLweSymDecrypt(dec, c, K, M);
+              out.evaluations++;
+              for (int j = 0; j < N; j++) if (dec->coefsT[j] != msg->coefsT[j]) {
+                  out.viol("decrypt:tlwe-polynomial", J().i("k", k).i("Msize", M).i("coef", j).i("message", mm[j]).s("noise", "prescribed inside the decoding interval").d("error_over_half_interval", errs[j] / halfw).i("decrypted", dec->coefsT[j]).i("encoded", msg->coefsT[j])); break; }
+              // the constant-message pair
+              for (int q = 0; q < 40; q++) { int32_t m = (int32_t) rng.below(M); Torus32 mu = modSwitchToTorus32(m, M); tLweSymEncryptT(c, mu, 0., K);
+                  int32_t e = (int32_t) ((q < 4 ? (q & 1 ? 1 : -1) * (1.0 - 6.0 / halfw) : (rng.unit() * 2 - 1) * 0.995) * (halfw < 64 ? 0.5 : 1.0) * (halfw - 3 * k - 2)); c->b->coefsT[0] += e;
+                  out.evaluations++;
+                  if (tLweSymDecryptT(c, K, M) != mu) { out.viol("decrypt:tlwe-constant", J().i("k", k).i("Msize", M).i("message", m).s("noise", "prescribed inside the decoding interval").d("error_over_half_interval", e / halfw)); break; } }
+              char c3[96]; snprintf(c3, sizeof c3, "tlwe:k=%d:M=%d:prescribed-errors-over-the-decoding-interval", k, M); out.cell(c3); }
             for (int ac = 0; ac < 5; ac++) {
                 double alpha = pick_alpha(ac, amax);
                 // constant messages
